@@ -357,10 +357,10 @@ def run(ck, facts):
         ck.bad("R6", "floor", "only %d guarded first()/last() unwrap sites found (2 counted)" % n6)
     # Dart: the allocator lookup recurses into DiplomatOption
     dg = tool.fn("dart::TyGenContext::gen_method_info")
-    an = [x for x in tool.fn_list if x["path"].endswith("::alloc_name") and "::dart::" in x["path"] and "gen_method_info" in x["path"] and "hir" in x]
-    an = an or [x for x in tool.fn_list if x["path"].endswith("::alloc_name") and "::dart::" in x["path"] and "hir" in x]
-    ok_rec = False
+    an = [x for x in tool.fn_list if x["path"].endswith("::alloc_name") and "::dart::" in x["path"] and "hir" in x]
+    rec_by_fn = {}
     for a_ in an:
+        ok_rec = False
         for x in C.walk(C.fn_body(a_)):
             pats = []
             if x.get("k") == "if":
@@ -375,5 +375,7 @@ def run(ck, facts):
             for p_ in pats:
                 if (p_.get("v") or "").split("::")[-1] == "DiplomatOption" and any(z.get("k") == "call" and (C.callee(z) or "").endswith("alloc_name") for z in C.walk(body_)):
                     ok_rec = True
-    ck.expect(bool(an) and ok_rec, "R6", "dart::alloc_name/sees-through-option", "DiplomatOption(inner) -> alloc_name(inner)",
-              "Dart's allocator lookup for method parameters no longer recurses into DiplomatOption: Option<struct> / Option<slice> parameters reach `unwrap()` / `need allocator for slice` with None", C.loc(an[0]) if an else C.loc(dg))
+        rec_by_fn[C.norm_path(a_["path"]).split("::")[-2]] = ok_rec
+    ck.expect(len(rec_by_fn) >= 2 and all(rec_by_fn.values()), "R6", "dart::alloc_name/sees-through-option", str(rec_by_fn),
+              "a Dart allocator lookup no longer recurses into DiplomatOption (%s): Option<struct> / Option<slice> values reach `unwrap()` / `need allocator for slice` with None, or an optional slice "
+              "field is put into the temporary arena and freed while the returned object still borrows it" % rec_by_fn, C.loc(an[0]) if an else C.loc(dg))
